@@ -160,6 +160,12 @@ def run(run):
             objs = OBJ if n <= (4 if quick else 5) else rng.sample(OBJ, 3)
             if star and n >= 5 and quick:
                 objs = [("flops", 0), ("write", 0), ("combo", 64)]
+            # objectives in a random order, and the plain 'combo' / 'limit' once more AFTER the custom weights: what a weight
+            # string means must not depend on which strings this process parsed before
+            objs = list(objs)
+            rng.shuffle(objs)
+            if any(k_ not in (0, 64) for _, k_ in objs):
+                objs += [("combo", 64), ("limit", 64)]
             for (obj, k), outer in itertools.product(objs, (False, True)):
                 minimize = obj if k in (0, 64) else f"{obj}-{k}"
                 kk = 64 if (k == 0 and obj in ("combo", "limit")) else k
